@@ -227,6 +227,9 @@ def gen_c08(rng, tier):
                 lv.append(rng.choice(col_theta))
             elif r < 0.5:
                 lv.append(rng.choice([lo - 0.5, hi + 0.75, max(0.125, lo - 0.25)]))
+            elif r < 0.62:
+                # just outside / just inside the range (relative 1e-9): masking is a strict comparison
+                lv.append(rng.choice([hi * (1 + 1e-9), lo * (1 - 1e-9), hi * (1 - 1e-9), lo * (1 + 1e-9)]))
             else:
                 lv.append(rng.randint(int(lo * 8), int(hi * 8)) / 8.0)
         lv = [max(x, 0.125) for x in lv]
@@ -578,6 +581,9 @@ def run_grid(spec, cnt, prop, feat):
             th = theta_eff[c]
             tg = spec["target"]
             lv = tg["levels"][int(np.ravel_multi_index(c, cols))] if tg["kind"] == "nd" else tg["levels"]
+            if f32:
+                # the levels were handed over in float32: that is what the interpolation saw
+                lv = [float(np.float32(x)) for x in lv]
             if th[-1] < th[0]:
                 cnt.c["decreasing_columns"] += 1
             exp = model_linear(lv, th, phi[c], spec["mask_edges"], log=spec["method"] == "log")
